@@ -9,6 +9,8 @@ package htlc
 //@   property C03, C13
 //@   requires height >= 0 && time >= 0
 //@   requires keeper.allSupWF && keeper.escrowInv && keeper.countersInv && keeper.allRecWF && keeper.queueInv && keeper.paramsValid
+//@   requires keeper.elapsedOK && keeper.uniqueDenoms(keeper.ASSETS)
+//@   requires 0 <= time - keeper.PREVT && time - keeper.PREVT <= 2305843009213693952
 //@   modifies bal, supply, htlcs, queue, supplies, prevTime
 //@   ensures refunded: forall i:Bytes :: old(has(queue, height, i)) ==> get(htlcs, i).State == keeper.REFUNDED && !has(queue, height, i)
 //@                     && get(htlcs, i) == keeper.closed(old(get(htlcs, i)), keeper.REFUNDED, height)
